@@ -72,7 +72,8 @@ def main():
             meta['confirmed'] = {'tests': out['tests'], 'demo_exit_with_change': out['demo_mutant'], 'demo_exit_without_change': out['demo_clean'],
                                  'ran': 'tools/eval_mutant.py: scratch worktree of /repo HEAD, git apply, pytest, demo.py, ./check %s --tier quick with DESPER_REPO=<worktree>' % prop,
                                  'repo_head': sh(['git', '-C', '/repo', 'rev-parse', '--short', 'HEAD'])[1].strip(),
-                                 'check_results': out['checks'], 'detected_by_own_property_check': out['detected']}
+                                 'check_results': out['checks'], 'detected_by_own_property_check': out['detected'],
+                                 'detected_by_checks': sorted(k for k, v in out['checks'].items() if v['exit'] == 1 and v['violation_lines'] > 0)}
             json.dump(meta, open(os.path.join(dst, 'meta.json'), 'w'), indent=1)
         print(json.dumps(out))
     finally:
